@@ -326,6 +326,7 @@ pub fn run_check<E: Engine>(engine: &E, spec: &CheckSpec, tier: &str) -> i32 {
             };
             acc.runs += 1;
             acc.steps += out.steps;
+            for v in out.violations.iter() { acc.stats.hit(&format!("oracle_fired:{}:{}", v.oracle, v.props.join("+"))); }
             acc.stats.merge(&out.stats);
             acc.fingerprints.insert(out.fingerprint);
             if out.nontrivial { acc.nontrivial_fps.insert(out.fingerprint); }
@@ -416,6 +417,13 @@ pub fn run_check<E: Engine>(engine: &E, spec: &CheckSpec, tier: &str) -> i32 {
     }
   }
 
+  for (k, n) in total.stats.0.iter() {
+    if let Some(rest) = k.strip_prefix("oracle_fired:") {
+      if !rest.split(':').nth(1).map(|p| p.split('+').any(|x| x == prop)).unwrap_or(false) {
+        println!("NOTE: oracle {rest} fired in {n} runs; it is decided by the check of that property, not by this one");
+      }
+    }
+  }
   let wall = t0.elapsed().as_secs_f64();
   let zero_probes: Vec<String> = Vec::new();
   let evidence = json!({
